@@ -683,7 +683,7 @@ class Engine:
         if isinstance(v, StrV): return 'str'
         return None
 
-    def lookup_method(self, head, trait, meth, args, st, callee):
+    def lookup_method(self, head, trait, meth, args, st, callee, _retry=False):
         if head == 'Iter' and args:
             rh = self.runtime_head(args[0], st)
             if rh == 'SliceIter': head = 'SliceIter'
@@ -715,6 +715,11 @@ class Engine:
                 return self.lookup_method(rh, trait, meth, args, st, callee)
         if trait in ('FnOnce', 'FnMut', 'Fn'):
             return ('builtin', bi_call_closure)
+        # std type whose model in the shim crate has another name (vec::IntoIter -> VecIntoIter, ...): dispatch on the value
+        if args and not _retry:
+            rh = self.runtime_head(args[0], st)
+            if rh and rh != head:
+                return self.lookup_method(rh, trait, meth, args, st, callee, _retry=True)
         raise Unsupported('method %s (head=%s trait=%s)' % (callee, head, trait))
 
     def push_call(self, st, f, args, dest, ret_bb):
@@ -1190,7 +1195,17 @@ def bi_vec_capacity(eng, st, args, dest, ret_bb, callee=''):
     v = vec_of(eng, st, args[0])
     return ('value', v.cap if isinstance(v.cap, S) else S(v.cap, 'usize'))
 
+def bi_drop_fn(eng, st, args, dest, ret_bb, callee=''):
+    eng.record_drop(st, args[0] if args else None, True)
+    return ('value', UNIT)
+
+def bi_sliceiter_len(eng, st, args, dest, ret_bb, callee=''):
+    it = args[0]
+    while isinstance(it, Ref): it = eng.deref(st, it)
+    return ('value', eng.binop('Sub', it.f[2], it.f[1]))
+
 BUILTINS = {
+    'drop': bi_drop_fn,
     'size_of': bi_size_of, 'box_assume_init_into_vec_unsafe': bi_box_into_vec,
     'panic': bi_panic, 'panic_fmt': bi_panic, 'assert_failed': bi_panic, 'unwrap_failed': bi_panic,
     'replace': bi_mem_replace,
@@ -1202,6 +1217,7 @@ BUILTIN_METHODS = {
     ('Vec', 'new'): bi_vec_new, ('Vec', 'clear'): bi_vec_clear, ('Vec', 'deref'): bi_identity, ('Vec', 'deref_mut'): bi_identity,
     ('Vec', 'as_slice'): bi_identity, ('Vec', 'with_capacity'): bi_vec_with_capacity, ('Vec', 'capacity'): bi_vec_capacity,
     ('Vec', 'reserve'): bi_vec_reserve, ('Vec', 'pop'): bi_vec_pop, ('SliceIter', 'next'): bi_sliceiter_next, ('SliceIter', 'next_back'): bi_sliceiter_next_back,
+    ('SliceIter', 'len'): bi_sliceiter_len, ('mem', 'drop'): bi_drop_fn,
     ('Box', 'new_uninit'): bi_box_new_uninit, ('boxed', 'box_assume_init_into_vec_unsafe'): bi_box_into_vec, ('Opq', 'clone'): bi_opq_clone, ('Opq', 'eq'): bi_opq_eq,
     ('[Node<T>]', 'get'): bi_slice_get, ('[Node<T>]', 'get_mut'): bi_slice_get,
     ('[Node<T>]', 'as_ptr_range'): bi_as_ptr_range, ('Vec', 'as_ptr'): bi_as_ptr, ('Vec', 'as_mut_ptr'): bi_as_ptr, ('[Node<T>]', 'as_ptr'): bi_as_ptr,
@@ -1224,7 +1240,7 @@ for _m in ('is_some', 'is_none', 'is_some_and', 'is_none_or', 'map', 'map_or', '
 for _m in ('expect', 'unwrap', 'expect_err', 'unwrap_err', 'unwrap_or', 'unwrap_or_else', 'is_ok', 'is_err', 'ok', 'err', 'map', 'map_err',
            'and_then', 'or_else'):
     SHIMS[('Result', _m)] = 'result_' + _m
-for _m in ('any', 'all', 'find', 'find_map', 'position', 'nth', 'count', 'last', 'fold', 'for_each', 'skip', 'take', 'rev', 'take_while', 'skip_while',
+for _m in ('any', 'all', 'find', 'find_map', 'position', 'rposition', 'nth', 'count', 'last', 'fold', 'for_each', 'skip', 'take', 'rev', 'take_while', 'skip_while',
            'map', 'filter', 'filter_map', 'enumerate', 'chain', 'peekable', 'by_ref'):
     SHIMS[('Iterator', _m)] = 'iter_' + _m
 SHIMS[('IntoIterator', 'into_iter')] = 'iter_into_iter'
